@@ -252,6 +252,8 @@ class World:
             return sympy.Piecewise(*[(self.build(e), self.build(c)) for e, c in a[1]])
         if h == 'deriv':
             return sympy.Derivative(self.vars[a[1]], self.vars[a[2]], evaluate=False)
+        if h == 'derivn':     # higher-order derivative: unsupported, must be refused with a UnitError
+            return sympy.Derivative(self.vars[a[1]], (self.vars[a[2]], int(a[3])), evaluate=False)
         if h == 'rel':
             return getattr(sympy, a[1])(self.build(a[2]), self.build(a[3]))
         if h == 'and':
